@@ -97,6 +97,11 @@ func fixedByteDocs() []byteDoc {
 	add("reproducer:7.25-cmd", "version: \"3\"\ntasks:\n  t:\n    cmds: [{cmd: echo hi, platforms: [windows, ~]}]\n")
 	add("reproducer:7.26", "version: \"3\"\ntasks:\n  t:\n    requires: {vars: [~]}\n    cmds: [echo hi]\n")
 	add("reproducer:7.21", "version: \"3\"\ntasks:\n  \"a(b\": echo hi\n")
+	add("reproducer:timestamp-var", "version: \"3\"\nvars: {BUILD_DATE: 2024-01-15}\ntasks:\n  t: \"echo {{.BUILD_DATE}}\"\n")
+	add("reproducer:timestamp-include-vars", "version: \"3\"\nincludes: {i: {taskfile: Taskfile.yml, optional: true, vars: {D: 2024-01-15}}}\ntasks:\n  t: echo\n")
+	add("reproducer:empty-matrix", "version: \"3\"\nvars: {X: \"a b\"}\ntasks:\n  t:\n    cmds:\n      - for: {var: X, matrix: {}}\n        cmd: \"echo {{.ITEM}}\"\n")
+	add("reproducer:glob-u2028", "version: \"3\"\ntasks:\n  t:\n    sources: [\"*.t"+ls+"xt\"]\n    cmds: [echo hi]\n")
+	add("glob-non-ascii", "version: \"3\"\ntasks:\n  t:\n    sources: [\"d\u00e9p/*.t\u00ebxt\", \"[\", \"a{b,c\", \"**/**/[!a-\", \"\\\\\"]\n    cmds: [echo hi]\n")
 	add("regex-names", "version: \"3\"\ntasks:\n  \"x.y\": echo\n  \"a+\": echo\n  \"[\": echo\n  \"*(\": echo\n  \"\\\\\": echo\n  \"a{1001}\": echo\n  \"(?P<n>\": echo\n")
 	add("regex-heavy-name", "version: \"3\"\ntasks:\n  \""+strings.Repeat("(a*)*", 200)+"b\": echo\n")
 	add("requires-kinds", "version: \"3\"\ntasks:\n  t:\n    requires: {vars: [A, {name: B, enum: ~}, {name: ~}, {enum: [x]}]}\n    cmds: [echo]\n")
